@@ -185,7 +185,7 @@ def shrink(prop, case, cls, deadline):
 # ---------------------------------------------------------------------------------------------
 
 def write_replay(prop, run_seed, case, violation, original_len=None, tag=None):
-    d = os.path.join(VERIF, "replays")
+    d = os.environ.get("VERIF_REPLAY_DIR") or os.path.join(VERIF, "replays")
     os.makedirs(d, exist_ok=True)
     name = "%s-%s.json" % (prop.id, tag or ("%016x" % run_seed))
     path = os.path.join(d, name)
@@ -415,8 +415,9 @@ def run_check(prop, tier, seed, jobs, runs_override=None):
         "assumptions": list(getattr(prop, "assumptions", [])),
         "wall_s": round(wall, 2), "violations": reported,
     }
-    os.makedirs(os.path.join(VERIF, "evidence"), exist_ok=True)
-    with open(os.path.join(VERIF, "evidence", prop.id + ".json"), "w") as f:
+    evdir = os.environ.get("VERIF_EVIDENCE_DIR") or os.path.join(VERIF, "evidence")
+    os.makedirs(evdir, exist_ok=True)
+    with open(os.path.join(evdir, prop.id + ".json"), "w") as f:
         json.dump(evidence, f, indent=1, sort_keys=True)
     print("%s %s: %d runs, %d distinct abstract states, %d violation(s), %.1fs; faults=%s" % (
         prop.id, tier, agg["n"], len(agg["states"]), reported, wall, json.dumps(faults, sort_keys=True)))
